@@ -58,22 +58,24 @@ def feed (c : Cfg) (r : Req) : St → List Ev → List Out → St × List Out
 
 def alive (d : Nat) : Bool := decide (1 ≤ d ∧ d ≤ 3)
 
-/-- closed loop; `fuel` bounds the number of stimuli -/
-def sim (c : Cfg) (r : Req) (bodySent : Bool) : Nat → St → List Fault → List Out → St × List Out
-  | 0, s, _, acc => (s, acc)
-  | fuel + 1, s, faults, acc =>
+/-- closed loop, as the list of events the environment produces: every `connect d` is answered by `connectDone (alive d)`,
+every queued `noteConnection` fires with the socket open, every dispatch meets the next fault (then `ok`);
+`fuel` bounds the number of stimuli -/
+def simTrace (c : Cfg) (r : Req) (bodySent : Bool) : Nat → St → List Fault → List Ev
+  | 0, _, _ => []
+  | fuel + 1, s, faults =>
     match s.phase with
     | .opening (some d) =>
-      let (s1, o1) := step c r s (.connectDone (alive d))
-      sim c r bodySent fuel s1 faults (acc ++ o1)
+      Ev.connectDone (alive d) :: simTrace c r bodySent fuel (step c r s (.connectDone (alive d))).1 faults
     | .answering _ _ =>
-      let (s1, o1) := step c r s (.noteConnection true)
-      sim c r bodySent fuel s1 faults (acc ++ o1)
+      Ev.noteConnection true :: simTrace c r bodySent fuel (step c r s (.noteConnection true)).1 faults
     | .sent _ _ =>
-      let f := faults.headD .ok
-      let (s1, acc1) := feed c r s (faultEvents r.hasBody bodySent f) acc
-      sim c r bodySent fuel s1 faults.tail acc1
-    | _ => (s, acc)
+      faultEvents r.hasBody bodySent (faults.headD .ok) ++
+        simTrace c r bodySent fuel (run c r s (faultEvents r.hasBody bodySent (faults.headD .ok))).1 faults.tail
+    | _ => []
+
+def sim (c : Cfg) (r : Req) (bodySent : Bool) (fuel : Nat) (s : St) (faults : List Fault) (acc : List Out) : St × List Out :=
+  feed c r s (simTrace c r bodySent fuel s faults) acc
 
 /-- the status line the client receives (FwdState::completed, errorAppendEntry) -/
 def finalStatus (s : St) : Nat :=
